@@ -82,7 +82,10 @@ Proof.
     change (Z.of_nat 0) with 0.
     destruct (thin_loop t n (Z.to_nat (n * t)) 0 len0) as [[ev l']|e]; cbn [lift res_bind fst snd]; reflexivity.
   - destruct (kind =? 1); [|reflexivity].
-    unfold sample_vi, rng_of_seed. destruct (seed <? 0); cbn [res_bind]; [reflexivity|].
+    destruct nc as [nc|]; [|reflexivity]. destruct ci as [ci|]; [|reflexivity].
+    cbn [is_none unwrap res_bind]. unfold sample_vi. rewrite <- key_split.
+    destruct (spawn_seeds seed nc) as [sd|e]; cbn [res_bind]; [|reflexivity].
+    destruct (rng_of_spawned sd ci) as [key|e]; cbn [res_bind]; [|reflexivity].
     rewrite add_all_src. unfold emit, vi_samples. cbn [fst snd app]. rewrite repeat_length.
     destruct (add_all n ret len0) as [[ev l']|e]; cbn [lift res_bind fst snd]; reflexivity.
 Qed.
